@@ -185,8 +185,8 @@ def rf24Call (d : Rf24) (w : World) : List String → Option (String × Rf24 × 
     some (runD d w (fifo t e) fun n => match e with | none => toString n | some _ => sBool (n ≠ 0))
   | ["address", i] => do let i ← parseInt i; some (runD d w (address i) hex)
   | ["get", "rpd"] => some (runD d w rpd sBool)
-  | ["get", "ce_pin"] => some (runD d w (do let s ← get; return (s.w.radio s.d.rid).ce) sBool)
-  | ["set", "ce_pin", b] => do let b ← pBool b; some (runD d w (setCE b) sUnit)
+  | ["get", "ce_pin"] => some (runD d w (do let s ← get; return (s.w.radio s.d.rid).ce) showBool)
+  | ["set", "ce_pin", b] => do let b ← parseBool b; some (runD d w (setCE b) sUnit)
   | ["get", "is_plus_variant"] => some (sBool d.isPlus, d, w)
   | ["start_carrier_wave"] => some (runD d w startCarrierWave sUnit)
   | ["stop_carrier_wave"] => some (runD d w stopCarrierWave sUnit)
